@@ -14,5 +14,7 @@ s=s.replace(old,new,1)
 open(p,'w').write(s)
 PY
 cd /verif
+cp /verif/evidence/$prop.json /tmp/evidence_$prop.keep 2>/dev/null
 VERIF_REPO="$d" ./vcheck "$prop" "$@" 2>&1 | tail -6 || true
+cp /tmp/evidence_$prop.keep /verif/evidence/$prop.json 2>/dev/null  # evidence must describe a run on the unchanged tree
 rm -rf "$d"
